@@ -146,6 +146,9 @@ func cmdCheck(args []string) int {
 				out.engineErrs = append(out.engineErrs, "function under contract not found: "+pat)
 			}
 		}
+		eng.wanted = func(r *FnRun, o *Obligation) bool {
+			return spec.belongs(prop, r.fn.Pkg.Pkg.Name(), o)
+		}
 		for _, key := range order {
 			r := eng.verifyFunc(eng.funcs[key])
 			pkgNameOf[r] = strings.SplitN(key, ":", 2)[0]
@@ -224,8 +227,14 @@ func cmdCheck(args []string) int {
 			if o.Result == nil {
 				continue
 			}
-			out.mine = append(out.mine, o)
 			st := o.Result.Status
+			if o.Kind == "errflow" && st != "unsat" && !inBase[o.ClauseKey] {
+				// the zero-annotation sweep claims only what held on the unchanged tree
+				o.Skipped = true
+				slowKeys[o.ClauseKey] = true // never enters the baseline either
+				continue
+			}
+			out.mine = append(out.mine, o)
 			if o.Kind == "canary" {
 				if st == "unsat" && o.Label == "entry" {
 					out.canaryFail = append(out.canaryFail, o)
